@@ -235,6 +235,20 @@ fn one(ctx: &Ctx, rep: &mut Report, id: usize, cfg: Cfg, k: usize) {
             },
         };
         let t = Context::plain().transcript();
+        // the convenience entry point (operating system's generator) must take the same decision
+        if (id + a.name.len()) % 3 == 0 {
+            rep.count("prove_calls_os_rng", 1);
+            match no_panic(|| RangeProof::prove(&mut t.clone(), &st, &w)) {
+                Err(p) => rep.violation(&format!("C06 prove-panic [{class}]"), &format!("RangeProof::prove panicked on `{}`: {p}", a.name), replay.clone()),
+                Ok(Ok(_)) if !a.valid => rep.violation(
+                    &format!("C06 proof-for-invalid-witness [{class}]"),
+                    &format!("RangeProof::prove (operating system's generator) emitted a proof for an invalid witness (`{}`)", a.name),
+                    replay.clone(),
+                ),
+                Ok(Err(e)) if a.valid => rep.violation(&format!("C06 valid-witness-refused [{class}]"), &format!("RangeProof::prove refused a valid witness (`{}`): {e}", a.name), replay.clone()),
+                _ => {},
+            }
+        }
         let mut prng = FaultRng::new(RngKind::Healthy(rng.next_u64()));
         let r = no_panic(|| RangeProof::prove_with_rng(&mut t.clone(), &st, &w, &mut prng));
         match r {
@@ -316,9 +330,19 @@ fn one(ctx: &Ctx, rep: &mut Report, id: usize, cfg: Cfg, k: usize) {
                 }
                 streams.push(v);
             }
+            // fixed public weights a folded check might use: position-dependent constants
+            {
+                let idx = |f: &dyn Fn(u64) -> Scalar| -> Vec<Scalar> { (0..m as u64 + 4).map(f).collect() };
+                streams.push(idx(&|i| Scalar::from(i + 1)));
+                streams.push(idx(&|i| Scalar::from(i)));
+                streams.push(idx(&|i| Scalar::from((i + 1) * (i + 1))));
+                streams.push(idx(&|i| Scalar::from(1u64 << (i % 63))));
+                streams.push(idx(&|i| (0..i).fold(Scalar::ONE, |acc, _| acc * Scalar::from(3u64))));
+                streams.push(idx(&|i| Scalar::from(m as u64 + 1 - (i % (m as u64 + 1)))));
+            }
             let mut tried = 0usize;
             'outer: for (si, c) in streams.iter().enumerate() {
-                let offsets = if c.len() >= m { (c.len() - m + 1).min(if ctx.thorough() { 12 } else { 5 }) } else { 0 };
+                let offsets = if c.len() >= m { (c.len() - m + 1).min(if si >= 3 { 2 } else if ctx.thorough() { 12 } else { 5 }) } else { 0 };
                 for off in 0..offsets {
                     let w = &c[off..off + m];
                     let a = (k + off) % (m - 1);
@@ -330,6 +354,35 @@ fn one(ctx: &Ctx, rep: &mut Report, id: usize, cfg: Cfg, k: usize) {
                     let comp = (k + off) % cfg.ext;
                     bl[a][comp] += w[b];
                     bl[b][comp] -= w[a];
+                    // with small integer weights the same shift works on the values
+                    let small = |x: &Scalar| -> Option<u64> {
+                        let b = x.to_bytes();
+                        if b[2..].iter().all(|y| *y == 0) { Some(u64::from(b[0]) | (u64::from(b[1]) << 8)) } else { None }
+                    };
+                    if let (Some(wa), Some(wb)) = (small(&w[a]), small(&w[b])) {
+                        if wa + wb > 0 && base_vals[a].checked_add(wb).map(|x| x <= maxv).unwrap_or(false) && base_vals[b] >= wa {
+                            let mut vals = base_vals.clone();
+                            vals[a] += wb;
+                            vals[b] -= wa;
+                            rep.count("adaptive_opening_attacks", 1);
+                            rep.count("prove_calls", 1);
+                            let stv = RangeStatement::init(prm.clone(), base_c.clone(), vec![None; m], None);
+                            let wv = RangeWitness::init((0..m).map(|j| CommitmentOpening::new(vals[j], base_bl[j].clone())).collect());
+                            if let (Ok(stv), Ok(wv)) = (stv, wv) {
+                                let mut prng = FaultRng::new(RngKind::Healthy(rng_seed));
+                                if let Ok(Ok(_)) = no_panic(|| RangeProof::prove_with_rng(&mut t.clone(), &stv, &wv, &mut prng)) {
+                                    rep.violation(
+                                        "C06 proof-for-invalid-witness [weighted value shift]",
+                                        &format!("the prover emitted a proof for a witness whose values [{a}] and [{b}] were shifted by +{wb} / -{wa} (a combination weighted by {wa}, {wb} is preserved); the openings do not match the commitments"),
+                                        json!({"tier": if ctx.thorough() {"thorough"} else {"quick"}, "seed": ctx.seed, "leg": leg, "case": id, "descr": {"group": GROUP, "cfg": cfg.json(), "attempt": "weighted value shift", "stream": si, "positions": [a, b]}}),
+                                    );
+                                    break 'outer;
+                                } else {
+                                    rep.count("refusals", 1);
+                                }
+                            }
+                        }
+                    }
                     tried += 1;
                     rep.count("adaptive_opening_attacks", 1);
                     rep.count("prove_calls", 1);
